@@ -118,6 +118,58 @@ def mutable_default_part(ctx, dist):
     return n
 
 
+def clone_part(ctx, dist):
+    """clone=True / clone=[names]: every item receives its OWN deep copy of the cloned broadcast values, so an item whose node
+    mutates the broadcast value (a list, a dict, a tuple or NamedTuple HOLDING a list) returns what a single run on a fresh copy
+    returns - through runner.map and through a mapping GraphNode, both runners."""
+    import asyncio
+    import collections
+    from hypergraph import AsyncRunner, Graph, SyncRunner
+    from hypergraph.nodes import FunctionNode
+    rng = ctx.rng
+    Ledger = collections.namedtuple("Ledger", ["label", "seen"])
+    makers = {"list": (lambda: [], lambda b: b), "dict": (lambda: {"seen": []}, lambda b: b["seen"]), "tuple_of_list": (lambda: ("lbl", []), lambda b: b[1]),
+              "namedtuple": (lambda: Ledger("lbl", []), lambda b: b.seen), "nested_tuple": (lambda: (("k", []),), lambda b: b[0][1])}
+    n = 0
+    for _ in range(ctx.n(24, 200)):
+        shape = rng.choice(sorted(makers))
+        make, inner = makers[shape]
+        is_async = rng.random() < 0.5
+
+        def body(x, ledger):
+            inner(ledger).append(x)
+            return list(inner(ledger))
+        item = Graph([FunctionNode(body, name="body", output_name="r")], name="item")
+        xs = [rng.randint(0, 9) for _ in range(rng.randint(2, 4))]
+        broadcast = make()
+        clone = rng.choice([True, ["ledger"]])
+        via = rng.choice(["runner.map", "node"])
+        case = {"family": "clone", "shape": shape, "async": is_async, "via": via, "clone": clone, "xs": xs}
+        try:
+            if via == "runner.map":
+                if is_async:
+                    got = [r["r"] for r in asyncio.run(AsyncRunner().map(item, {"x": xs, "ledger": broadcast}, map_over="x", clone=clone,
+                                                                           max_concurrency=rng.choice([None, 1, 2])))]
+                else:
+                    got = [r["r"] for r in SyncRunner().map(item, {"x": xs, "ledger": broadcast}, map_over="x", clone=clone)]
+            else:
+                outer = Graph([item.as_node().map_over("x", clone=clone)])
+                got = (asyncio.run(AsyncRunner().run(outer, {"x": xs, "ledger": broadcast})) if is_async
+                       else SyncRunner().run(outer, {"x": xs, "ledger": broadcast}))["r"]
+        except Exception as e:  # noqa: BLE001
+            ctx.violation("oracle", f"mapping with clone={clone!r} over a {shape} broadcast raised {type(e).__name__}: {e}", case=case)
+            continue
+        n += 1
+        dist["clone_maps"] = dist.get("clone_maps", 0) + 1
+        want = [[x] for x in xs]
+        if got != want:
+            ctx.violation("oracle", f"clone={clone!r}: items over a mutated {shape} broadcast returned {got}; a single run on a fresh copy returns {want} "
+                          "(an item saw another item's mutation)", case=case)
+        if inner(broadcast):
+            ctx.violation("oracle", f"clone={clone!r}: the caller's broadcast object was modified: {broadcast!r}", case=case)
+    return n
+
+
 def run(ctx):
     rng = ctx.rng
     N = Names()
@@ -219,6 +271,7 @@ def run(ctx):
         if len(samples) < 2:
             samples.append({k: case[k] for k in ("over", "mode", "inputs", "runner", "error_handling", "as_node")} | {"graph": g["nodes"]})
     n_eval += mutable_default_part(ctx, dist)
+    n_eval += clone_part(ctx, dist)
     res = batch.run()
     if res["error"]:
         ctx.violation("harness", res["error"])
@@ -229,7 +282,7 @@ def run(ctx):
         rule="item graphs (plain / failing items / items taking different branches / chains) mapped over 1-3 parameters, list lengths 0-4, "
              "zip and product, broadcast values, unequal zip lengths, caller dicts in another key order than map_over; through runner.map "
              "(async: max_concurrency None/1/2/3 under adversarial completion orders) and through a mapping GraphNode (continue / raise, "
-             "renamed mapped input); plus (oracle only) items whose node mutates its list / dict / tuple-of-list signature default, via runner.map and a mapping GraphNode; non-trivial = at least two combinations",
+             "renamed mapped input); plus (oracle only) items whose node mutates its list / dict / tuple-of-list signature default, via runner.map and a mapping GraphNode, and items mutating a cloned broadcast value (clone=True / [names]); non-trivial = at least two combinations",
         distribution=dist, samples=samples, traces_validated_against_impl=n_eval, disagreements_checked=res["n"])
 
 
